@@ -173,8 +173,36 @@ Definition k10_expr (_ : bool) (e : expr) : bool :=
   end.
 Definition known_sqrt_call (b : block) : bool := s_block k10_expr no_stmt b.
 
+(** K11: [remove_floor_division] writes [a // b] as [math.floor(a / b)]: when an operand is a
+    table with metamethods the original calls [__idiv], the output [__div] (and [math.floor] on
+    its result).  Inherent to the rewrite; statically recognisable only as "an operand is the
+    direct result of an external function", which is what the tag says. *)
+Fixpoint opaque_operand (fuel : nat) (e : expr) : bool :=
+  match fuel with
+  | O => false
+  | S f =>
+    match e with
+    | ECall (EIdent x) None _ => prefix_b (of_string "ext") x
+    | EParen e' => opaque_operand f e'
+    | ETypeCast e' _ => opaque_operand f e'
+    | _ => false
+    end
+  end.
+Definition k11_expr (_ : bool) (e : expr) : bool :=
+  match e with
+  | EBinary BIDiv l r => opaque_operand 8 l || opaque_operand 8 r
+  | _ => false
+  end.
+Definition k11_stmt (s : stmt) : bool :=
+  match s with
+  | SCompound BIDiv _ v => opaque_operand 8 v
+  | _ => false
+  end.
+Definition known_idiv_opaque (b : block) : bool := s_block k11_expr k11_stmt b.
+
 Definition known_tags (b : block) : string :=
   ((if known_and_multivalue b then "K5 " else "") ++
    (if known_underscore_variable b then "K7 " else "") ++
    (if known_repeat_continue b then "K2 " else "") ++
-   (if known_sqrt_call b then "K10 " else ""))%string.
+   (if known_sqrt_call b then "K10 " else "") ++
+   (if known_idiv_opaque b then "K11 " else ""))%string.
